@@ -1,6 +1,6 @@
 //@ unit printer_indent
 //@ serves C04 C05
-//@ must_verify AstPrinter::new AstPrinter::with_comment_map AstPrinter::has_comment AstPrinter::print_comment_group AstPrinter::render_missed_comments AstPrinter::render_comment_if_needed AstPrinter::is_bareword AstPrinter::escape_quotes AstPrinter::render_list_def AstPrinter::render_tuple_def AstPrinter::render_value AstPrinter::render_expr AstPrinter::render_expr__g0 AstPrinter::render_expr__g1 AstPrinter::render_expr__g2 AstPrinter::render_expr__g3 AstPrinter::render_stmt AstPrinter::render Value::pos FuncOpDef::pos Expression::pos Statement::pos lemma_e_parts lemma_fl_parts lemma_st_parts lemma_es_w lemma_fs_w lemma_ads_w lemma_arms_w lemma_sts_w
+//@ must_verify AstPrinter::new AstPrinter::with_comment_map AstPrinter::has_comment AstPrinter::print_comment_group AstPrinter::render_missed_comments AstPrinter::render_comment_if_needed AstPrinter::is_bareword AstPrinter::escape_quotes AstPrinter::render_list_def AstPrinter::render_tuple_def AstPrinter::render_value AstPrinter::render_expr AstPrinter::render_expr__g0 AstPrinter::render_expr__g1 AstPrinter::render_expr__g2 AstPrinter::render_expr__g3 AstPrinter::render_stmt AstPrinter::render lemma_consumed_in_line_order lemma_kd Value::pos FuncOpDef::pos Expression::pos Statement::pos lemma_groups_inhabited lemma_e_parts lemma_fl_parts lemma_st_parts lemma_es_w lemma_fs_w lemma_ads_w lemma_arms_w lemma_sts_w
 //@ include prelude/head.rs
 use std::rc::Rc;
 //@ include prelude/printer_indent_macros.rs
@@ -19,17 +19,55 @@ verus! {
 
 pub open spec fn maxi() -> int { isize::MAX as int }
 
-// the printer's state invariant: comment groups are pending only while there is a map to print them from (or
-// render_missed_comments would spin for ever), their lines are real line numbers (1-based, below usize::MAX: the
-// printer computes `line - 1` and `last_comment_line + 1`), and they are kept strictly descending (the smallest, the
-// next one to print, is the last element). The big render functions only hand it on (they `hide` it).
-pub open spec fn cinv(has_map: bool, lines: Seq<usize>) -> bool {
-    &&& (!has_map ==> lines.len() == 0)
-    &&& forall|i: int| 0 <= i < lines.len() ==> 1 <= #[trigger] lines[i] < usize::MAX
-    &&& forall|i: int, j: int| 0 <= i < j < lines.len() ==> lines[i] > lines[j]
+// ---------- the printer's state invariant ----------
+// The pending comment groups are kept as the vector of their lines, DESCENDING (the smallest line, the next group to
+// print, is the last element). kd(m): all keys of the comment map in that order.
+pub open spec fn kd(m: Map<usize, CommentGroup>) -> Seq<usize> {
+    Seq::new(keys_asc(m).len(), |i: int| keys_asc(m)[keys_asc(m).len() - 1 - i])
+}
+// facts of the map alone: its keys are real line numbers (1-based, below usize::MAX: the printer computes `line - 1` and
+// `last_comment_line + 1`), kd lists each key once, strictly descending.
+pub open spec fn map_ok(m: Map<usize, CommentGroup>) -> bool {
+    &&& forall|i: int| 0 <= i < kd(m).len() ==> 1 <= #[trigger] kd(m)[i] < usize::MAX && m.dom().contains(kd(m)[i])
+    &&& forall|i: int, j: int| 0 <= i < j < kd(m).len() ==> kd(m)[i] > kd(m)[j]
+    &&& forall|k: usize| m.dom().contains(k) ==> exists|i: int| 0 <= i < kd(m).len() && #[trigger] kd(m)[i] == k
+}
+pub proof fn lemma_kd(m: Map<usize, CommentGroup>)
+    requires forall|k: usize| m.dom().contains(k) ==> 1 <= k < usize::MAX,
+    ensures map_ok(m),
+{
+    axiom_keys_asc(m);
+    let a = keys_asc(m);
+    let n = a.len() as int;
+    assert forall|k: usize| m.dom().contains(k) implies exists|i: int| 0 <= i < kd(m).len() && #[trigger] kd(m)[i] == k by {
+        let j = choose|j: int| 0 <= j < a.len() && #[trigger] a[j] == k;
+        assert(kd(m)[n - 1 - j] == k);
+    }
+}
+// the invariant: without a map nothing is pending (or render_missed_comments would spin for ever); with a map the
+// pending groups are the n LARGEST keys of the map, for some n: the groups are consumed from the smallest line up,
+// none is skipped, none comes back. The big render functions only hand the invariant on (they `hide` it).
+pub open spec fn cinv(mo: Option<Map<usize, CommentGroup>>, lines: Seq<usize>) -> bool {
+    match mo {
+        None => lines.len() == 0,
+        Some(m) => map_ok(m) && lines.len() <= kd(m).len() && lines =~= kd(m).take(lines.len() as int),
+    }
+}
+pub open spec fn pmap<'a, W: Write>(p: AstPrinter<'a, W>) -> Option<Map<usize, CommentGroup>> {
+    match p.comment_map { Some(m) => Some(m@), None => None }
 }
 pub open spec fn pinv<'a, W: Write>(p: AstPrinter<'a, W>) -> bool {
-    cinv(p.comment_map is Some, p.comment_group_lines@)
+    cinv(pmap(p), p.comment_group_lines@)
+}
+// C05 frame: what the invariant says about two states of one printer: the later pending groups are the earlier ones
+// minus the groups of the smallest lines, and every group consumed in between lies below every group still pending.
+pub proof fn lemma_consumed_in_line_order<'a, W: Write>(p: AstPrinter<'a, W>, q: AstPrinter<'a, W>)
+    requires pinv(p), pinv(q), q.comment_map == p.comment_map, q.comment_group_lines@.len() <= p.comment_group_lines@.len(),
+    ensures
+        q.comment_group_lines@ =~= p.comment_group_lines@.take(q.comment_group_lines@.len() as int),
+        forall|i: int, j: int| 0 <= i < q.comment_group_lines@.len() <= j < p.comment_group_lines@.len()
+            ==> p.comment_group_lines@[j] < q.comment_group_lines@[i],
+{
 }
 
 // ---------- how far to the right rendering a tree can move the indentation ----------
@@ -286,12 +324,13 @@ pub proof fn lemma_st_parts(a: Statement, s: nat)
 }
 
 // ---------- the contract of every render function ----------
-// frame: what a render function may change of the printer besides the writer: it consumes pending comment groups from
-// the smallest line up (the remaining ones are a prefix of the descending vector) and moves last_line.
+// frame: what a render function may change of the printer besides the writer and last_line: it consumes pending
+// comment groups - by the invariant from the smallest line up, see lemma_consumed_in_line_order - and never adds one.
 pub open spec fn frame<'a, W: Write>(p: AstPrinter<'a, W>, q: AstPrinter<'a, W>) -> bool {
     &&& pinv(q)
     &&& q.indent_size == p.indent_size
     &&& q.comment_map == p.comment_map
+    &&& q.comment_group_lines@.len() <= p.comment_group_lines@.len()
 }
 // ... and when it succeeds the indentation is back where it was: every `+= indent_size` has met its `-= indent_size`.
 pub open spec fn rpost<'a, W: Write>(p: AstPrinter<'a, W>, q: AstPrinter<'a, W>, r: std::io::Result<()>) -> bool {
@@ -322,11 +361,13 @@ pub open spec fn rpre<'a, W: Write>(p: AstPrinter<'a, W>, w: nat) -> bool {
         ensures
             pinv(r), r.curr_indent == self.curr_indent, r.indent_size == self.indent_size,
             r.comment_map == Some(map),
-            // the pending comment groups are exactly the keys of the map
-            forall|i: int| 0 <= i < r.comment_group_lines@.len() ==> map@.dom().contains(#[trigger] r.comment_group_lines@[i]),
-            forall|k: usize| map@.dom().contains(k) ==> exists|i: int| 0 <= i < r.comment_group_lines@.len() && #[trigger] r.comment_group_lines@[i] == k,
+            // every comment group of the map is pending
+            r.comment_group_lines@ =~= kd(map@),
 //@   >>>
 //@   mutant comment_map_not_installed "self.comment_map = Some(map);" => "" expect with_comment_map
+//@   body_start <<<
+        proof { lemma_kd(map@); }
+//@   >>>
 //@ end
 
 //@ extract src/ast/printer/mod.rs :: impl * AstPrinter<'a, W> * :: fn make_indent
@@ -496,7 +537,7 @@ pub open spec fn rpre<'a, W: Write>(p: AstPrinter<'a, W>, w: nat) -> bool {
 // So the proof is a CASE SPLIT over the kind of expression, without touching the text: the real function is extracted
 // four times (only its NAME differs: render_expr__g0 .. __g3), each copy is verified IN FULL against the one contract
 // under the extra hypothesis that the expression belongs to group k (the arms of the other groups are then dead code
-// for the prover). The hand-written `render_expr` below is the case split itself - it is verified, not assumed: it
+// for the prover). The hand-written `render_expr` (prelude/printer_indent_dispatch.rs) is the case split itself - it is verified, not assumed: it
 // proves that the four groups cover every expression, it is what the recursive calls inside the copies refer to (the
 // induction hypothesis), and it keeps all of this inside one recursion group, so that `decreases` is checked at every
 // recursive call.
@@ -510,21 +551,26 @@ pub open spec fn grp(e: Expression) -> int {
         | Expression::Constraint(_) => 3,
     }
 }
-impl<'a, W> AstPrinter<'a, W> where W: Write {
-    pub fn render_expr(&mut self, expr: &Expression) -> (r: std::io::Result<()>)
+// the case split (hand-written, VERIFIED; prelude/printer_indent_dispatch.rs says why it is pulled in by `extract`)
+//@ extract /verif/prelude/printer_indent_dispatch.rs :: impl * AstPrinter<'a, W> * :: fn render_expr
+//@   ret r
+//@   sig <<<
         requires rpre(*old(self), e_w(*expr, old(self).indent_size as nat)),
         ensures rpost(*old(self), *final(self), r),
         decreases expr, 1int
-    {
-        match expr {
-            Expression::Binary(_) | Expression::Cast(_) | Expression::Call(_) | Expression::Copy(_) | Expression::Debug(_)
-            | Expression::Fail(_) | Expression::Convert(_) => self.render_expr__g0(expr),
-            Expression::Format(_) | Expression::Func(_) | Expression::Grouped(_, _) | Expression::Import(_)
-            | Expression::Include(_) => self.render_expr__g1(expr),
-            Expression::FuncOp(_) => self.render_expr__g2(expr),
-            _ => self.render_expr__g3(expr),
-        }
-    }
+//@   >>>
+//@ end
+// the extra hypothesis of each copy (`grp(*expr) == k`) is satisfiable together with the contract's precondition:
+// every group has an expression that needs no room at all (the vacuity canary of the runner covers `rpre` itself).
+pub proof fn lemma_groups_inhabited(d: ImportDef, pos: Position, s: nat)
+    ensures
+        ({ let e = Expression::Debug(DebugDef { pos, expr: Box::new(Expression::Import(d)) }); grp(e) == 0 && e_w(e, s) == 0 }),
+        ({ let e = Expression::Import(d); grp(e) == 1 && e_w(e, s) == 0 }),
+        ({ let e = Expression::FuncOp(FuncOpDef::Map(MapFilterOpDef { func: Box::new(Expression::Import(d)), target: Box::new(Expression::Import(d)), pos }));
+           grp(e) == 2 && e_w(e, s) == s }),
+        ({ let e = Expression::Not(NotDef { pos, expr: Box::new(Expression::Import(d)) }); grp(e) == 3 && e_w(e, s) == 0 }),
+{
+    reveal_with_fuel(e_w, 3);
 }
 
 //@ extract src/ast/printer/mod.rs :: impl * AstPrinter<'a, W> * :: fn render_expr
@@ -691,7 +737,10 @@ impl<'a, W> AstPrinter<'a, W> where W: Write {
 //@   ret r
 //@   sig <<<
         requires rpre(*old(self), sts_w(stmts@, stmts@.len(), old(self).indent_size as nat)),
-        ensures rpost(*old(self), *final(self), r),
+        ensures
+            rpost(*old(self), *final(self), r),
+            // C05 frame: when the whole file has been rendered no comment group is left pending
+            r is Ok ==> final(self).comment_group_lines@.len() == 0,
 //@   >>>
 //@   body_start <<<
         proof { lemma_sts_w(stmts@, stmts@.len(), old(self).indent_size as nat); }
